@@ -557,11 +557,14 @@ def isDeleted (P : Params) (d : Bytes) : R Bool :=
   | .ok h => .ok h.xmax.isSome
   | .error e => .error e
 
-/-- `Tuple::delete`: sets `xmax` unless the row is already deleted -/
+/-- `Tuple::delete`: sets `xmax` to the deleter.  An existing delete mark is overwritten (since c92877b; before, the
+    delete was silently ignored, which made a row undeletable for ever after a rolled-back DELETE).  Whether
+    overwriting is *right* — the single slot loses the first deleter — is C03/C04's business (their finding
+    `deleteMarkSingleSlot`); C18 is about decoding whatever mark the bytes carry. -/
 def delete (P : Params) (d : Bytes) (xid : Nat) : R Bytes :=
   match readHeader P d with
   | .error e => .error e
-  | .ok h => if h.xmax.isSome then .ok d else .ok (d.take 8 ++ le64 xid ++ d.drop 16)
+  | .ok _ => .ok (d.take 8 ++ le64 xid ++ d.drop 16)
 
 /-- harness scaffolding: overwrite the header's `xmin` -/
 def stamp (P : Params) (d : Bytes) (xid : Nat) : R Bytes :=
@@ -648,8 +651,9 @@ def LRow.update (L : LRow) (t : Nat) (m : Mods) : LRow :=
     { L with cur := { creator := t, ver := (L.cur.ver + 1) % 256, vals := applyMods m 0 L.cur.vals },
              hist := (L.cur, changedIdx m 0 L.cur.vals) :: L.hist, deleter := none }
 
+/-- the delete as the code performs it: the single delete mark now names `t`, whatever it named before (see `delete`) -/
 def LRow.delete (L : LRow) (t : Nat) : LRow :=
-  if L.deleter.isSome then L else { L with deleter := some t }
+  { L with deleter := some t }
 
 /-- history kept by a vacuum with horizon `h`: everything down to and including the newest version below the
     horizon, unless a newer kept version is already below it -/
